@@ -28,11 +28,12 @@ def run(prop, tier, seed):
         if tier == "quick":
             dtabs = [q4[1], q4[2],
                      q31[1],                                                        # base metrics inner (base formula is shared by 3.0/3.1)
-                     reduced(q30[0], {"AV": 1, "AC": 1, "UI": 1}), reduced(q30[2], {"AV": 1, "AC": 1, "UI": 1}),
-                     reduced(q31[2], {"AV": 1, "AC": 1, "UI": 1}), q30[5], q31[5],
+                     reduced(q30[0], {"AV": 1, "AC": 1, "UI": 1}), reduced(q30[3], {"AV": 1, "AC": 1, "UI": 1}),
+                     reduced(q31[3], {"AV": 1, "AC": 1, "UI": 1}), reduced(q30[2], {"AV": 1, "AC": 1, "UI": 1}), reduced(q31[2], {"AV": 1, "AC": 1, "UI": 1}),
+                     q30[6], q31[6],
                      reduced(q2[0], {"AV": 1, "AC": 1}), reduced(q2[1], {"E": 2, "RL": 2, "RC": 1})]
         else:
-            dtabs = [q4[1], q4[2]] + q30[:3] + q30[5:6] + q31[:3] + q31[5:6] + q2[:2]
+            dtabs = [q4[1], q4[2]] + q30[:4] + q30[6:7] + q31[:4] + q31[6:7] + q2[:2]
         p, n = tables.spec_rows(dtabs, work, "design")
         r = tlc_or_die("TraceScores", cfg="TraceScores_spec.cfg", env={"TRACE_FILE": p, "NEED_V3": "1", "NEED_V2": "1"}, timeout=7200)
         c.add_tlc("design: specification's own scores are monotone (Mode=spec)", r)
@@ -41,7 +42,7 @@ def run(prop, tier, seed):
             raise MachineryError("the specification itself is not monotone where C14 claims: %s" % bad[0][:400])
         c.extra["design_step_comparisons"] = sum(int(l.split()[2]) for l in r.lines if l.startswith("CMP "))
         # informational: where the 3.0 standard is non-monotone (derives the exemption)
-        p, n = tables.spec_rows([reduced(q30[2], {"AV": 1, "AC": 1, "UI": 1}), reduced(q30[3], {"MAV": 1, "MAC": 1, "MUI": 1})] if tier == "quick" else [q30[2], q30[3]], work, "design30")
+        p, n = tables.spec_rows([reduced(q30[3], {"AV": 1, "AC": 1, "UI": 1}), reduced(q30[4], {"MAV": 1, "MAC": 1, "MUI": 1})] if tier == "quick" else [q30[3], q30[4]], work, "design30")
         r = tlc_or_die("TraceScores", cfg="TraceScores_specall.cfg", env={"TRACE_FILE": p, "NEED_V3": "1", "NEED_V2": "1"}, timeout=7200)
         c.add_tlc("design: v3.0 environmental score without the exemption (Mode=specall)", r)
         mets = set()
